@@ -15,7 +15,12 @@ package main
 //   2. the responses are those of the reference run for the unmutated requests, legal reply
 //      types with the right id for well-formed-but-different requests, nothing else;
 //   3. the served tree / handler call log equal the reference run cut before the malformed packet;
-//   4. no descriptor into the tree, every handler object closed exactly once, no package goroutine left.
+//   4. no descriptor into the tree, every handler object closed exactly once, no package goroutine left;
+//   5. EFFECTS of dispatched requests (srvsession_effect.go): WRITE writes exactly `length` bytes at `offset`,
+//      SETSTAT / FSETSTAT apply exactly the flagged attributes (files before/after on the os-backed server,
+//      recorded handler arguments on the request server), and bytes that follow the last field of a request
+//      inside its frame mean nothing (the stream re-encoded without them gets the same replies and leaves
+//      the same files / handler log).
 // Option dimensions (c07OptionConfigs): ReadOnly() on the os-backed server — the reference run and every
 // mutation of it go through the denial path: a modifying request (also one a mutation produced) is
 // answered PERMISSION_DENIED and the tree ends exactly as it began (os/readonly-not-denied/<kind>,
@@ -202,7 +207,8 @@ func c07CmpRefs(r *lib.Result, a *ssPJob, ra *ssResult, b *ssPJob, rb *ssResult)
 func checkC07(c *lib.Ctx) {
 	r := c.R
 	thorough := c.Tier == "thorough"
-	r.Rule = "sessions: INIT + PRNG mix of 24 request kinds (OPEN r/w/rw, READ, WRITE, FSTAT, FSETSTAT, CLOSE, OPENDIR, READDIR, STAT, LSTAT, MKDIR, RMDIR, REMOVE, RENAME, SYMLINK, READLINK, REALPATH, SETSTAT, statvfs/posix-rename/hardlink/unknown extended), incl. failing opens, never-issued handles and (one flavour) handles of the wrong kind; recorded interactively against os-backed Server (absolute paths / working directory + relative paths) and RequestServer with counting in-memory handlers, allocator on and off; option dimensions — os-backed: ReadOnly() (every modifying request, also one made by a mutation, must be refused with PERMISSION_DENIED and the tree stay as it was) x WithDebug x {absolute, working directory, working directory <tree>/home/u + relative paths} x allocator; request server: {default, WithStartDirectory(\"/\") + relative, WithStartDirectory(\"/home/u\") + absolute, + relative paths} x allocator x {all optional interfaces, handler objects without Close / TransferError, handlers without OpenFileWriter / LstatFileLister / PosixRenameFileCmder / StatVFSFileCmder, neither}; quick: four members of that product (rotating with the seed) on the field session and every third generated session, thorough: the whole product (24 os + 32 rs members) on rotating shares of the sessions, mutated with the sampled density; ReadOnly() configurations also record a \"read-only\" session (every modifying request kind, OPEN with the combinations of write / create / truncate / append / excl / read) and get ALL boundary values for every OPEN's pflags; reference runs of one session on configurations that differ only in path style / start directory / allocator / debug writer are compared reply by reply (type and status code). Mutations of the recorded stream, one per case: cut at byte k then EOF (quick: every frame boundary, boundary+-1 and PRNG offsets; thorough: every k), every frame's length field := 0,1,n-1,n+1,2^31-1,2^32-1, every frame's type byte := sample incl. 0,2,21,99,101-105,199,201,255 and other valid types (thorough: all 0..255), every string-length field := 0,n-1,n+1,n+1000,2^32-1, whole-field mutations (every integer field the judge finds in a request: frame length, id, version, string lengths, READ/WRITE offset and length, pflags, attribute flags, size, uid, gid, permissions, times, extended count := 0,1,2^31-1,2^31,2^32-16..2^32-1 and for 64-bit fields also 2^32,2^63-1,2^63,2^64-16..2^64-1; string lengths 0/1 also with the string cut to fit and attribute flags also with the block zero-padded to fit, so that the request is dispatched with the extreme value; quick: PRNG choice of 1 value per field (3 in the dedicated session that exercises read/write/read-write/directory handles and full attribute blocks), but ALL values for the offsets and lengths of that session's READs and WRITEs; thorough: all values), garbage appended, crafted raw frames (F3/short-attribute witnesses), and the same for path-only sessions sent pipelined. Each case runs on a fresh server in a child process; a case is non-trivial when the stream differs from the reference stream; distinct by (server config, session, mutation)"
+	ssThoroughRun = thorough || c.Replay != ""
+	r.Rule = "sessions: INIT + PRNG mix of 24 request kinds (OPEN r/w/rw, READ, WRITE, FSTAT, FSETSTAT, CLOSE, OPENDIR, READDIR, STAT, LSTAT, MKDIR, RMDIR, REMOVE, RENAME, SYMLINK, READLINK, REALPATH, SETSTAT, statvfs/posix-rename/hardlink/unknown extended), incl. failing opens, never-issued handles and (one flavour) handles of the wrong kind; recorded interactively against os-backed Server (absolute paths / working directory + relative paths) and RequestServer with counting in-memory handlers, allocator on and off; option dimensions — os-backed: ReadOnly() (every modifying request, also one made by a mutation, must be refused with PERMISSION_DENIED and the tree stay as it was) x WithDebug x {absolute, working directory, working directory <tree>/home/u + relative paths} x allocator; request server: {default, WithStartDirectory(\"/\") + relative, WithStartDirectory(\"/home/u\") + absolute, + relative paths} x allocator x {all optional interfaces, handler objects without Close / TransferError, handlers without OpenFileWriter / LstatFileLister / PosixRenameFileCmder / StatVFSFileCmder, neither}; quick: four members of that product (rotating with the seed) on the field session and every third generated session, thorough: the whole product (24 os + 32 rs members) on rotating shares of the sessions, mutated with the sampled density; ReadOnly() configurations also record a \"read-only\" session (every modifying request kind, OPEN with the combinations of write / create / truncate / append / excl / read) and get ALL boundary values for every OPEN's pflags; reference runs of one session on configurations that differ only in path style / start directory / allocator / debug writer are compared reply by reply (type and status code). Mutations of the recorded stream, one per case: cut at byte k then EOF (quick: every frame boundary, boundary+-1 and PRNG offsets; thorough: every k), every frame's length field := 0,1,n-1,n+1,2^31-1,2^32-1, every frame's type byte := sample incl. 0,2,21,99,101-105,199,201,255 and other valid types (thorough: all 0..255), every string-length field (the data length of a WRITE included) := 0,n-1,n+1,n+1000,2^32-1 and, for the last string of a frame (thorough: every string), n/2 — the bytes left where they are —, every frame's length field also := n+(length of the next packet) so that the frame swallows the whole next packet (thorough: also n+4 and the next two packets), 1 and 5 (thorough: 1,3,4,5,8,64,4096) bytes appended INSIDE every frame, whole-field mutations (every integer field the judge finds in a request: frame length, id, version, string lengths, READ/WRITE offset and length, pflags, attribute flags, size, uid, gid, permissions, times, extended count := 0,1,2^31-1,2^31,2^32-16..2^32-1 and for 64-bit fields also 2^32,2^63-1,2^63,2^64-16..2^64-1; string lengths 0/1 also with the string cut to fit and attribute flags also with the block zero-padded to fit, so that the request is dispatched with the extreme value; quick: PRNG choice of 1 value per field (3 in the dedicated session that exercises read/write/read-write/directory handles and full attribute blocks), but ALL values for the offsets and lengths of that session's READs and WRITEs; thorough: all values), garbage appended, crafted raw frames (F3/short-attribute witnesses), and the same for path-only sessions sent pipelined. EFFECT oracles besides the reply oracles: around every WRITE, SETSTAT and FSETSTAT of every run (reference runs too) the file behind the handle / at the path is looked at before and after (os-backed: an OK'd WRITE leaves the old content with exactly `length` bytes — the bytes of the data string — at `offset`; an OK'd SETSTAT / FSETSTAT changed exactly the attributes its flags select, to the block's values) resp. the arguments the handler object / the Setstat handler recorded are compared with the request's fields (request server); and whenever a dispatched frame carries bytes after the last field of its request, the whole stream is run a second time with every request re-encoded without such bytes: same replies, same final tree / handler log. Each case runs on a fresh server in a child process; a case is non-trivial when the stream differs from the reference stream; distinct by (server config, session, mutation)"
 	base, err := ssMkBase(ssBaseRnd())
 	if err != nil {
 		r.Fail(lib.Failure{Kind: "tie", Key: "tmpdir", What: err.Error()})
@@ -458,6 +464,40 @@ func checkC07(c *lib.Ctx) {
 			}
 		}
 		if ri.sess.name == "fields" {
+			// the field session also gets the mutations that leave bytes after the last field of a dispatched
+			// request (its WRITEs, SETSTATs and FSETSTATs act on live handles of every kind): every length
+			// field downwards without moving the bytes, the frame length upwards over the next packet, bytes
+			// appended inside the frame
+			for i, n := range L {
+				if i == 0 {
+					continue
+				}
+				body := uint32(n - 4)
+				if i+1 < len(L) {
+					addMut(ri, ssMut{Kind: "len", Frame: i, Val: body + uint32(L[i+1])})
+					if thorough {
+						addMut(ri, ssMut{Kind: "len", Frame: i, Val: body + 4})
+					}
+				}
+				for _, v := range []uint32{1, 64} {
+					addMut(ri, ssMut{Kind: "tail", Frame: i, Val: v})
+				}
+				if i < len(ri.res.StrOffs) {
+					for fi, o := range ri.res.StrOffs[i] {
+						if fi != len(ri.res.StrOffs[i])-1 && !thorough {
+							continue // (the last string of the frame: what is cut off it becomes trailing bytes)
+						}
+						sl := uint32(ri.res.StrLens[i][fi])
+						seen := map[uint32]bool{sl: true}
+						for _, v := range []uint32{0, 1, sl / 2, sl - 1} {
+							if !seen[v] && v < sl {
+								seen[v] = true
+								addMut(ri, ssMut{Kind: "strlen", Frame: i, Off: o, Val: v})
+							}
+						}
+					}
+				}
+			}
 			continue
 		}
 		modes := []bool{false}
@@ -489,9 +529,32 @@ func checkC07(c *lib.Ctx) {
 			for i, n := range L {
 				// length field
 				body := uint32(n - 4)
-				for _, v := range []uint32{0, 1, body - 1, body + 1, 1<<31 - 1, 1<<32 - 1} {
+				lenVals := []uint32{0, 1, body - 1, body + 1, 1<<31 - 1, 1<<32 - 1}
+				if i+1 < len(L) && i > 0 {
+					// upwards, so that the frame swallows the whole of the next packet (thorough: also just its length
+					// word, and the next two packets): the request is dispatched with what followed it as bytes
+					// after its last field
+					lenVals = append(lenVals, body+uint32(L[i+1]))
+					if thorough {
+						lenVals = append(lenVals, body+4)
+						if i+2 < len(L) {
+							lenVals = append(lenVals, body+uint32(L[i+1]+L[i+2]))
+						}
+					}
+				}
+				for _, v := range lenVals {
 					if v != body {
 						addMut(ri, ssMut{Kind: "len", Frame: i, Val: v, Pipe: pipe})
+					}
+				}
+				// bytes appended inside the frame, after the last field of the request
+				if i > 0 && !pipe {
+					tails := []uint32{1, 5}
+					if thorough {
+						tails = []uint32{1, 3, 4, 5, 8, 64, 4096}
+					}
+					for _, v := range tails {
+						addMut(ri, ssMut{Kind: "tail", Frame: i, Val: v})
 					}
 				}
 				// type byte
@@ -533,7 +596,11 @@ func checkC07(c *lib.Ctx) {
 					for fi, o := range ri.res.StrOffs[i] {
 						n := uint32(ri.res.StrLens[i][fi])
 						seen := map[uint32]bool{n: true}
-						for _, v := range []uint32{0, n - 1, n + 1, n + 1000, 1<<32 - 1} {
+						vals := []uint32{0, n - 1, n + 1, n + 1000, 1<<32 - 1}
+						if fi == len(ri.res.StrOffs[i])-1 || thorough {
+							vals = append(vals, n/2) // downwards, not a boundary (the last string of a frame: the rest of it becomes trailing bytes)
+						}
+						for _, v := range vals {
 							if !seen[v] { // (n-1 wraps to 2^32-1 for an empty string: de-duplicated here)
 								seen[v] = true
 								addMut(ri, ssMut{Kind: "strlen", Frame: i, Off: o, Val: v})
